@@ -52,18 +52,26 @@ class C13(Prop):
                   "WRITE_BUF_ENCODE_SIZE) whose RFC parse is exactly the configured pairs (+ grease iff on), no id twice, none "
                   "reserved, grease never collides; a number >= 2^62 makes build return an error with nothing written (after "
                   "the D-13 repair); for every received payload the decoder agrees with the RFC 9114 7.2.4 oracle (truncated "
-                  "-> connection error, reserved / repeated supported id -> H3_SETTINGS_ERROR, else applied exactly, unknown "
-                  "ids ignored, never Exceeded); defaults until the first set, first value for ever; decode(encode s) = s; "
+                  "-> connection error, reserved / repeated supported id -> H3_SETTINGS_ERROR, H3_DATAGRAM / ENABLE_CONNECT_PROTOCOL "
+                  "with a value other than 0 / 1 -> H3_SETTINGS_ERROR (reading R-13b, repair D-13b; the list of such ids is read "
+                  "from the source and proved equal to the RFC list), else applied exactly (those two flags: on iff 1 is carried), "
+                  "unknown ids ignored, never Exceeded), also at connection level against Spec.Settings.demand "
+                  "(C13_received_settings_agree_with_oracle); the local configuration plays no part in what is received "
+                  "(C13_received_settings_independent_of_local_config; the SETTINGS arm of poll_control is read by the translator "
+                  "as exactly set_settings((&settings).into())); defaults until the first set, first value for ever; "
+                  "decode(encode s) = s; "
                   "for every acceptance script of the transport the peer sees a prefix of that header and exactly the header "
                   "once write returns (WriteBuf model of C14, drain_spec); streams with an incomplete header accepted before "
-                  "the control stream are passed over by the scan of poll_accept_recv (any number of them)")
+                  "the control stream are passed over by the scan of poll_accept_recv (any number of them), and so are resolved "
+                  "QPACK / WebTransport / unknown-type streams (a second QPACK stream in front ends the pass with its error)")
     level_note = ("trusted: Lean kernel + 3 standard axioms; hand-written models tied to the code by the differential run (full "
                   "builder product in both roles over the real connection setup on an in-memory transport, also with the "
                   "transport taking the header in pieces; received payloads "
                   "through the real Frame::decode and through a real connection's control stream) and by the translator "
                   "(SETTINGS_LEN, WRITE_BUF_ENCODE_SIZE, supported/reserved id lists, grease formula, config defaults "
-                  "regenerated from source); reading R-13: repeated unknown ids may be ignored or rejected; boolean-valued "
-                  "settings carrying a value other than 0/1 are outside the property's wording (no demand)")
+                  "regenerated from source; Settings::decode's body in two known shapes, SettingId::is_boolean; the arms of "
+                  "poll_control / poll_accept_recv through Gen/CtlArms, Gen/UniArms); reading R-13: repeated unknown ids may be "
+                  "ignored or rejected; reading R-13b: ENABLE_WEBTRANSPORT (a draft, no error defined) above 1 is without a demand")
     rule = ("cases: set cfg = {wt,ec,dg} x mfs,wts in {0,1,63,64,16383,16384,2^30-1,2^30,2^62-1,2^62,u64::MAX} x grease on/off "
             "(server) and {ec,dg} x mfs x grease (client) + omitted-key (default) variants, grease identifier = the real "
             "SettingId::grease() under a per-case fastrand seed; set dec = every supported id x boundary values x all varint "
@@ -78,6 +86,13 @@ class C13(Prop):
             "repeated / reserved identifier or a cut behind them, at function level and through a real connection (cuts at "
             "128..132); set cfgw = the builder product under back-pressure: the transport takes the control stream header k "
             "bytes per poll (k in 1,2,3,5,7,8,11,41,64, mixed and random patterns, polls without credit in between); "
+            "third round (audit 2): set apply / apply2 / applyq under LOCAL configurations = 11 (server) / 8 (client) classes "
+            "(defaults, mfs 0 / 1 / 63 / 64 / 16383 / 16384 / 2^30 / 2^62-1, every flag, wts, grease on) x 27 classes of received "
+            "payload placed relative to the local values (mfs below / at / above the local one, wts likewise, each flag, unknown, "
+            "repeated, reserved, truncated, 0/1 setting = 2 / 3), whole and cut, + random payloads under random configurations; "
+            "set applyq with COMPLETE foreign headers in front (grease / unknown types in 1-, 2-, 8-byte form, QPACK 02 / 03, "
+            "WebTransport 4054 + session id with wt on and off, mixed with incomplete ones, every pair, second QPACK streams); "
+            "set enc judged on every line by the harness's own reader of the written bytes; "
             "non-trivial = implementation result is not bad-op/bad-case/setup-failed/pending; distinct = distinct case lines")
     trusted = ["sim.rs in-memory QUIC transport (delivers and records bytes verbatim)",
                "fastrand 2.x thread-local generator: same seed, same first draw (the grease identifier of a case line)",
